@@ -827,37 +827,85 @@ theorem viewExt_pushed {s : State} (hs : Inv s) (p : Nat) (po op : Obj) (rows : 
       simp only [Option.map_some, Option.getD_some, htn, if_false, ht, if_true]
       by_cases htp : t = p <;> simp [htp]
 
+/-- what pushing views keeps of the objects that were there: their place, memory window and attachment -/
+def Keeps (objs objs' : List Obj) : Prop :=
+  objs.length ≤ objs'.length ∧
+  ∀ (i : Nat) (o : Obj), objs[i]? = some o → ∃ o' : Obj, objs'[i]? = some o' ∧ o'.mem = o.mem ∧ o'.idx = o.idx ∧ o'.other = o.other
+
+theorem Keeps.trans {a b c : List Obj} (h1 : Keeps a b) (h2 : Keeps b c) : Keeps a c := by
+  refine ⟨Nat.le_trans h1.1 h2.1, ?_⟩
+  intro i o ho
+  obtain ⟨o1, ho1, hm1, hi1, ht1⟩ := h1.2 i o ho
+  obtain ⟨o2, ho2, hm2, hi2, ht2⟩ := h2.2 i o1 ho1
+  exact ⟨o2, ho2, hm2.trans hm1, hi2.trans hi1, ht2.trans ht1⟩
+
+theorem keeps_of_viewExt {s s' : State} {p : Nat} {oth : Option Nat} (h : ViewExt s s' p oth) : Keeps s.objs s'.objs := by
+  refine ⟨by rw [h.len]; omega, ?_⟩
+  intro i o ho
+  obtain ⟨o', ho'⟩ := h.fwd i o ho
+  have hi : i < s.objs.length := by
+    by_contra hc; rw [List.getElem?_eq_none (by omega)] at ho; cases ho
+  obtain ⟨o2, ho2, hm, hidx, hoth, _⟩ := h.oldObj i o' ho' hi
+  rw [ho] at ho2; cases ho2
+  exact ⟨o', ho', hm, hidx, hoth⟩
+
+theorem pushViewOth_eq_pushed (objs : List Obj) (p : Nat) (po : Obj) (rows : List Nat) (oth : Option Nat) :
+    pushViewOth ⟨true, true⟩ objs p po rows oth = pushed objs p po rows oth := by
+  cases oth <;> rfl
+
+/-- **Attachment chains of any depth**: pushing the views of a whole chain (innermost first, each new view attached to and
+registered with the view of its own attached object) keeps the invariant, whatever the length of the chain. -/
+theorem pushChain_inv (rows : List Nat) : ∀ (fuel : Nat) (s : State), Inv s → ∀ (p : Nat) (objs' : List Obj) (n : Nat),
+    pushChain ⟨true, true⟩ rows fuel s.objs p = some (objs', n) →
+    Inv { mems := s.mems, objs := objs' } ∧ Keeps s.objs objs' ∧ n < objs'.length := by
+  intro fuel
+  induction fuel with
+  | zero => intro s hs p objs' n h; simp [pushChain] at h
+  | succ f ih =>
+    intro s hs p objs' n h
+    simp only [pushChain] at h
+    cases hp : s.objs[p]? with
+    | none => simp [hp] at h
+    | some po =>
+      simp only [hp] at h
+      cases ho : po.other with
+      | none =>
+        simp only [ho, Option.some.injEq, Prod.mk.injEq] at h
+        obtain ⟨h1, h2⟩ := h
+        have ext := viewExt_pushed hs p po po rows none hp rfl (by intro t ht; cases ht)
+        rw [pushViewOth_eq_pushed] at h1
+        subst h1; subst h2
+        refine ⟨inv_viewExt hs ext, keeps_of_viewExt ext, ?_⟩
+        have := ext.len
+        simp only at this
+        omega
+      | some q =>
+        simp only [ho] at h
+        cases hr : pushChain ⟨true, true⟩ rows f s.objs q with
+        | none => simp [hr] at h
+        | some r =>
+          obtain ⟨objs1, nq⟩ := r
+          simp only [hr, Option.some.injEq, Prod.mk.injEq] at h
+          obtain ⟨h1, h2⟩ := h
+          obtain ⟨hs1, hk1, hnq⟩ := ih s hs q objs1 nq hr
+          obtain ⟨op1, hop1, hm1, _, _⟩ := hk1.2 p po hp
+          have ext2 := viewExt_pushed hs1 p po op1 rows (some nq) hop1 hm1.symm (by intro t ht; cases ht; exact hnq)
+          rw [pushViewOth_eq_pushed] at h1
+          subst h1; subst h2
+          refine ⟨inv_viewExt hs1 ext2, hk1.trans (keeps_of_viewExt ext2), ?_⟩
+          have := ext2.len
+          simp only at this
+          omega
+
 theorem view_inv {s : State} (hs : Inv s) (p : Nat) (rows : List Nat) :
     (step ⟨true, true⟩ s (.view p rows)).2 = (refStep s (.view p rows)).2 ∧ Inv (step ⟨true, true⟩ s (.view p rows)).1 := by
   refine ⟨rfl, ?_⟩
-  cases hp : s.objs[p]? with
-  | none => simp only [step, hp]; exact hs
-  | some po =>
-    cases ho : po.other with
-    | none =>
-      simp only [step, hp, ho]
-      exact inv_viewExt hs (viewExt_pushed hs p po po rows none hp rfl (by intro t ht; cases ht))
-    | some q =>
-      cases hq : s.objs[q]? with
-      | none => simp only [step, hp, ho, hq]; exact hs
-      | some qo =>
-        simp only [step, hp, ho, hq]
-        -- first the view of the other …
-        have ext1 := viewExt_pushed hs q qo qo rows none hq rfl (by intro t ht; cases ht)
-        have hs1 : Inv { mems := s.mems, objs := pushed s.objs q qo rows none } := inv_viewExt hs ext1
-        have hlen1 : (pushed s.objs q qo rows none).length = s.objs.length + 1 := ext1.len
-        -- … then the view of the rows themselves, registered with it
-        obtain ⟨op1, hop1⟩ := ext1.fwd p po hp
-        have hplt : p < s.objs.length := by
-          by_contra hc; rw [List.getElem?_eq_none (by omega)] at hp; cases hp
-        obtain ⟨o0, h0, hm0, _⟩ := ext1.oldObj p op1 hop1 hplt
-        rw [hp] at h0; cases h0
-        have ext2 := viewExt_pushed hs1 p po op1 rows (some s.objs.length) hop1 hm0.symm
-          (by intro t ht; cases ht; show s.objs.length < (pushed s.objs q qo rows none).length; omega)
-        have hlen1' : (pushView ⟨true, true⟩ s.objs q qo rows none).length = s.objs.length + 1 := ext1.len
-        have := inv_viewExt hs1 ext2
-        simp only [pushed, hlen1'] at this
-        exact this
+  simp only [step]
+  cases h : pushChain ⟨true, true⟩ rows (s.objs.length + 1) s.objs p with
+  | none => exact hs
+  | some r =>
+    obtain ⟨objs', n⟩ := r
+    exact (pushChain_inv rows _ s hs p objs' n h).1
 
 /-! ### Attaching another position: `setOther` -/
 
